@@ -65,7 +65,8 @@ def wh_check(pid, tier, seed, t0):
     crashed = [s for s in eng["shards"] if s["rc"] != 0]
     n_impl = len(eng["impl"])
     incomplete = n_impl < len(eng["cases"]) or any(
-        len(ic["steps"]) < len(eng["cases"][i]) for i, ic in enumerate(eng["impl"]) if i < len(eng["cases"]))
+        len(ic["steps"]) < len([l for l in eng["cases"][i] if not l.startswith("%")])
+        for i, ic in enumerate(eng["impl"]) if i < len(eng["cases"]))
     rc = 0
     replay_path = None
     if viol:
@@ -149,8 +150,11 @@ def shrink_wh(ops, pid, msg, budget=120):
             reduced = False
             for i in range(0, len(cur), chunk):
                 cand = cur[:i] + cur[i + chunk:]
-                if not cand or not cand[0].startswith("new"):
+                body = [l for l in cand if not l.startswith("%")]
+                if not body or not body[0].startswith("new"):
                     continue
+                if cur[0].startswith("%") and not cand[0].startswith("%"):
+                    cand = [cur[0]] + cand
                 runs += 1
                 if fails(cand):
                     cur = cand
@@ -174,7 +178,7 @@ def replay_wh(pid, path):
         print("replay file names no history: %s" % json.dumps(r.get("no_longer_checks"))[:2000])
         return 1
     common.build_extract()
-    err = common.build_harness(["wh"])
+    err = common.build_harness(["wh", "wh16"])
     if err:
         raise Infra(err[-2000:])
     sh = wh.run_cases([ops], os.path.join(common.BUILD, "run", "replay-%s" % pid), shards=1, tag="r")
